@@ -198,6 +198,38 @@ def run(R):
                 R.counterexample('static-scan', 'temporary-in-the-user-namespace', {'template': tname, 'function': fn},
                                  'every name stored by generated rule code is a user name or starts with an underscore', bad)
                 break
+    # parameters of a class used through the class's own entry point, C.parse(args)(text, pos, fullparse): renamed into
+    # the names of that entry point's own parameters and into scratch names of the runtime
+    def class_entry(pnames):
+        a, b = pnames
+        g = Grammar(f'class Pair({a}, {b}) {{\n    first: "x"{{{a}}}\n    second: "y"{{{b}}}\n}}\nstart = "z"\n')
+        outs = []
+        for args in ((1, 2), (2, 1), (0, 1)):
+            for text, pos, full in (('xyy', 0, True), ('xxy', 0, True), ('qxyy', 1, True), ('xyyq', 0, False), ('y', 0, True), ('', 0, True)):
+                try:
+                    v = g.Pair.parse(*args)(text, pos, full)
+                    outs.append(('return', repr(v).replace(a, 'A1').replace(b, 'A2')))
+                except g.PartialParseError as e:
+                    outs.append(('partial', e.last_position.index))
+                except g.ParseError as e:
+                    outs.append(('error', e.position.index))
+                except Exception as e:          # noqa
+                    outs.append(('exception', type(e).__name__))
+        return outs
+    try:
+        ref_entry = class_entry(('alpha', 'beta'))
+    except Exception as e:                      # noqa
+        ref_entry = ('construction failed', type(e).__name__)
+    for nm in ['text', 'pos', 'fullparse', 'start', 'memo', 'stack', 'key', 'result', 'gtor', 'cls', 'args', 'kwargs', 'closure', 'func', 'value1', 'item1']:
+        for pn in ((nm, 'beta'), ('alpha', nm)):
+            R.count('class-entry-point', pn, nontrivial=True)
+            try:
+                got = class_entry(pn)
+            except Exception as e:              # noqa
+                got = ('construction failed', type(e).__name__)
+            if got != ref_entry:
+                R.counterexample('class-entry-point', f'class-parameter:outcome-changes @ {nm}', {'parameters': list(pn)},
+                                 'the outcomes of the same class with parameters alpha, beta', [x for x, y in zip(got, ref_entry) if x != y][:3] if isinstance(got, list) else got)
     # module level: a name the generator defines on its own account must not have the shape of a name DERIVED from a
     # user name (X, _parse_X, _try_X with X a user identifier), whatever the user names are
     ident = re.compile(r'[A-Za-z][A-Za-z0-9_]*$')
